@@ -146,6 +146,8 @@ def generate(rng, tier):
                   "parts": [gen_operand(rng, live, ncolors, allow_boom=boom) for _ in range(rng.randint(0, 4))]}
             if boom and rng.random() < 0.4:
                 op["parts"].insert(rng.randrange(len(op["parts"]) + 1), {"boom": 1})
+            if rng.random() < 0.2:
+                op["sub"] = True        # built as an object of a user's subclass of CHText
             if rng.random() < 0.15:
                 op = {"op": "chunk", "dst": dst, "c": rng.randrange(ncolors), "s": gen_str(rng, 8) or "k"}
         elif r < 0.24:
@@ -269,6 +271,7 @@ class World:
                     kw["bg_color"] = tuple(kw["bg_color"])
                 self.fmts.append(color.ColorFmt(c, **kw))
                 self.styles.append(model_style(spec))
+        self.sub_cls = type("UserText", (color.CHText,), {"__doc__": "a user's subclass that changes nothing"})
         self.real = {}      # handle -> real object
         self.model = {}     # handle -> MObj (shared between aliases)
         self.stats = {"ops_done": 0, "handles_checked": 0, "alias_ops": 0, "inplace_on_shared": 0, "faults_fired": 0,
@@ -388,7 +391,9 @@ def apply(w, op):
             return
         parts = [w.real_operand(p) for p in op["parts"]]
         try:
-            x = CHText(*parts)
+            x = (w.sub_cls if op.get("sub") else CHText)(*parts)
+            if op.get("sub"):
+                st["subclass_objects"] = st.get("subclass_objects", 0) + 1
             raised = None
         except Exception as e:
             raised = e
